@@ -17,8 +17,11 @@ import (
 
 func hasDupConflicts(t *transaction.Transaction) bool {
 	seen := map[util.Uint256]bool{}
-	for _, a := range t.GetAttributes(transaction.ConflictsT) {
-		h := a.Value.(*transaction.Conflicts).Hash
+	for i := range t.Attributes {
+		if t.Attributes[i].Type != transaction.ConflictsT {
+			continue
+		}
+		h := t.Attributes[i].Value.(*transaction.Conflicts).Hash
 		if seen[h] {
 			return true
 		}
@@ -28,17 +31,18 @@ func hasDupConflicts(t *transaction.Transaction) bool {
 }
 
 type famStats struct {
-	mu       sync.Mutex
-	n        map[string]int64 // counter name -> count
-	cases    *vk.Set          // distinct (scenario, capacity-independent pool content, added tx, result) of the overlap families
-	shapes   *vk.Set          // distinct shapes of successful overlapping additions
-	rebuilds vk.Counter
-	fpbCases *vk.Set // fpb families: distinct (capacity, full pool content, newcomer, result)
-	listings *vk.Set // fpb families: distinct listings in which the newcomer's position was decided (fpb_test.go)
+	mu          sync.Mutex
+	n           map[string]int64 // counter name -> count
+	cases       *vk.Set          // distinct (scenario, capacity-independent pool content, added tx, result) of the overlap families
+	shapes      *vk.Set          // distinct shapes of successful overlapping additions
+	rebuilds    vk.Counter
+	fpbCases    *vk.Set // fpb families: distinct (capacity, full pool content, newcomer, result)
+	layoutCases *vk.Set // layout families: distinct Add transitions decided by an attribute outside the first Conflicts run / a split duplicate
+	listings    *vk.Set // fpb families: distinct listings in which the newcomer's position was decided (fpb_test.go)
 }
 
 func newFamStats() *famStats {
-	return &famStats{n: map[string]int64{}, cases: vk.NewSet(), shapes: vk.NewSet(), listings: vk.NewSet(), fpbCases: vk.NewSet()}
+	return &famStats{n: map[string]int64{}, cases: vk.NewSet(), shapes: vk.NewSet(), listings: vk.NewSet(), fpbCases: vk.NewSet(), layoutCases: vk.NewSet()}
 }
 
 func (f *famStats) inc(names ...string) {
@@ -100,16 +104,40 @@ func (f *famStats) add(sc *scenario, capacity int, before []int, ti int, res, cl
 func (f *famStats) export(cov map[string]any) {
 	f.mu.Lock()
 	defer f.mu.Unlock()
-	mc, fc := map[string]int64{}, map[string]int64{}
+	mc, fc, lc := map[string]int64{}, map[string]int64{}, map[string]int64{}
 	for k, v := range f.n {
 		if strings.HasPrefix(k, "fpb:") {
 			fc[k] = v
+		} else if strings.HasPrefix(k, "layout:") {
+			lc[k] = v
 		} else {
 			mc[k] = v
 		}
 	}
 	cov["transition_model_counters"] = mc
 	cov["fpb_family_counters"] = fc
+	cov["layout_family_counters"] = lc
+	cov["layout_adds"] = int(lc["layout:adds"])
+	for name, sub := range map[string]string{
+		"layout_adds_newcomer_names_pooled_only_outside_first_conflicts_run": "layout:newcomer-names-pooled-tx-only-outside",
+		"layout_adds_pooled_names_newcomer_only_outside_first_conflicts_run": "layout:pooled-tx-names-newcomer-only-outside",
+		"layout_adds_newcomer_names_pooled_in_non_adjacent_duplicates":       "layout:newcomer-names-pooled-tx-in-non-adjacent",
+		"layout_adds_pooled_names_newcomer_in_non_adjacent_duplicates":       "layout:pooled-tx-names-newcomer-in-non-adjacent",
+	} {
+		var acc, rej int64
+		for k, v := range lc {
+			if strings.HasPrefix(k, sub) {
+				if strings.HasSuffix(k, "/accepted") {
+					acc += v
+				} else {
+					rej += v
+				}
+			}
+		}
+		cov[name+"_accepted"] = int(acc)
+		cov[name+"_rejected"] = int(rej)
+	}
+	cov["layout_distinct_decided_adds"] = f.layoutCases.Len()
 	// scalars (the merged evidence keeps only those): transitions DECIDED by a pair of each boundary class
 	for name, sub := range map[string]string{
 		"fpb_decided_by_equal_floor_ratio_opposing_net": "floor-eq/ratio-opposes-net",
